@@ -1,6 +1,7 @@
 import MtailVerif.Proofs.FileStream
 import MtailVerif.Generated.FileStream
 import MtailVerif.Proofs.ReaderBuf
+import MtailVerif.Proofs.Skeletons
 /-! # C16 — A tailed file delivers every appended line exactly once across rotation -/
 namespace MtailVerif.C16
 open MtailVerif MtailVerif.FileStream
@@ -77,5 +78,11 @@ example : ReaderBuf.offers ReaderBuf.src 4 (ReaderBuf.new 4) [.read 4 4, .read 1
     nothing, for ever -/
 example : ReaderBuf.offers ⟨Generated.Reader.needGrow, fun _ cap _ => 2 * cap⟩ 4 (ReaderBuf.new 4)
     [.read 4 4, .read 1 0, .read 1 0] = [4, 0, 0] := by decide
+
+/-! ### regenerated control skeletons (written by lib/wire_skeletons.py) -/
+/-- Obligations over regenerated facts: the functions this property's model stands for have the
+    control skeleton the model was written against (`Proofs/Skeletons.lean`, one `rfl` per function
+    or clause; DESIGN.md §11.6a) -/
+theorem streams_skeletons : Skeletons.StreamsShape := Skeletons.streams_shape
 
 end MtailVerif.C16
